@@ -8,11 +8,11 @@ func c05(r *core.Run) {
 	thriftrw := r.GoBuildRepo("thriftrw", "go.uber.org/thriftrw")
 	per := uint64(r.Pick(100, 500))
 	// evolution: program 2k is the writer schema, 2k+1 the same program evolved
-	runDrivers(r, thriftrw, "evo", uint64(r.Pick(80, 2400)), 40, nil, nil, []driverMon{
+	runDrivers(r, thriftrw, "evo", uint64(r.Pick(160, 2400)), 40, nil, nil, []driverMon{
 		{name: "c05", cases: func(t, c, f int) uint64 { return uint64(t) * per / 2 }},
 	})
 	// injection of foreign fields into encodings read by the same schema
-	runDrivers(r, thriftrw, "safe", uint64(r.Pick(60, 1200)), 30, nil, nil, []driverMon{
+	runDrivers(r, thriftrw, "safe", uint64(r.Pick(120, 1200)), 30, nil, nil, []driverMon{
 		{name: "c05inject", cases: func(t, c, f int) uint64 { return uint64(t) * per / 2 }},
 	})
 	if !r.Replay {
